@@ -120,7 +120,8 @@ func NumeralClass(t *rapid.T, mask int, label string) (string, int) {
 		}
 		return sign + digits, c
 	default: // NumExtreme
-		return sign + rapid.SampledFrom([]string{"1E-130", "1e-130", "9.9999999999999999999999999999999999999E+125", "1E125", "1e-100", "123E-128", "5E+124"}).Draw(t, label), c
+		return sign + rapid.SampledFrom([]string{"1E-130", "1e-130", "9.9999999999999999999999999999999999999E+125", "1E125", "1e-100", "123E-128", "5E+124",
+			"1" + strings.Repeat("0", 40), "12" + strings.Repeat("0", 60), "0." + strings.Repeat("0", 50) + "7", "1700000000001", "1700000000002", "10000000000000000000"}).Draw(t, label), c
 	}
 }
 
@@ -259,10 +260,15 @@ var AttrNames = []string{"a", "b", "c", "d", "e", "n1", "s1", "l1", "m1", "flag"
 
 // Attrs draws 0..max non-key attributes.
 func Attrs(t *rapid.T, o AVOpts, max int, label string) model.Item {
+	return AttrsNamed(t, o, max, AttrNames, label)
+}
+
+// AttrsNamed draws 0..max attributes with names from the given pool.
+func AttrsNamed(t *rapid.T, o AVOpts, max int, names []string, label string) model.Item {
 	n := rapid.IntRange(0, max).Draw(t, label+"N")
 	out := model.Item{}
 	for i := 0; i < n; i++ {
-		k := rapid.SampledFrom(AttrNames).Draw(t, label+"K")
+		k := rapid.SampledFrom(names).Draw(t, label+"K")
 		out[k] = AV(t, o, label+"V")
 	}
 	return out
